@@ -15,7 +15,7 @@
    nothing (stutter_invariant); the executable instance used in the correspondence check has it
    (instance_allowed_is_stutter_invariant). Loop bounds of the model (fuel) are assumed large
    enough for the events at hand, explicitly. *)
-From Coq Require Import List NArith Bool.
+From Coq Require Import List NArith ZArith Bool Lia.
 From Verif Require Import Lib.Bytes Fed.Filters Fed.AuthChain Fed.Load Fed.Spec Fed.Instance
   Fed.GatherProofs Fed.StateProofs Fed.LoadProofs Fed.ChainProofs Fed.InstanceProofs.
 Import ListNotations.
@@ -98,6 +98,53 @@ Section C14.
                   (mset [] (eid e) (Some e)) [] HT HS) as [H|H]; auto.
       contradiction.
   Qed.
+
+  (* ---- no fuel premise ----
+     With the fuel computed from the response (csr_fuel: twice the longest auth_events list, plus
+     one) CheckStateResponse never runs out: it fails as a whole or returns the exact filter. *)
+  Theorem check_state_response_total : forall hasprov rauth rstate,
+    let all := untrusted_events rauth ++ untrusted_events rstate in
+    let r := check_state_response unit sig_ok allowed (pcall_of prov) (csr_fuel all) hasprov rauth rstate tt in
+    r = (CsrNoStateKey, tt) \/ r = (CsrDuplicate, tt) \/
+    r = (CsrOk (filter (good_id sig_ok allowed (eff_prov hasprov prov) all) (untrusted_events rauth))
+               (filter (good_id sig_ok allowed (eff_prov hasprov prov) all) (untrusted_events rstate)), tt).
+  Proof.
+    intros. eapply csr_shape; eauto. intros e He. now apply csr_fuel_ok.
+  Qed.
+
+  Theorem send_join_never_out_of_fuel : forall hasprov rauth rstate join,
+    let all := untrusted_events rauth ++ untrusted_events rstate in
+    fst (check_send_join unit sig_ok allowed (pcall_of prov) (csr_fuel (join :: all)) hasprov rauth rstate join tt)
+      <> SjOutOfFuel.
+  Proof.
+    intros. eapply sj_no_out_of_fuel; eauto.
+    - intros e He. apply csr_fuel_ok. now right.
+    - apply csr_fuel_ok. now left.
+  Qed.
+
+  (* For a provider that is a function of the ID, the events reachable from e lie in some finite
+     list univ (e.g. e plus the provider's range). With the fuel computed from univ
+     (fuel_of: 2 + the sum of (1 + number of auth event IDs) over univ; gfuel_of: twice the
+     longest auth_events list, plus one) VerifyEventAuthChain terminates within the fuel, and
+     accepts exactly when every reachable event passes. *)
+  Theorem auth_chain_accepts_iff_total : forall univ e,
+    (forall c, Reach prov e c -> In c univ) ->
+    let r := fst (verify_event_auth_chain unit allowed (pcall_of prov) (fuel_of univ) (gfuel_of univ) e tt) in
+    r <> ChainOutOfFuel /\
+    (r = ChainOk <-> forall c, Reach prov e c -> chain_ok allowed prov e c).
+  Proof.
+    intros univ e Huniv r.
+    assert (Hg : forall c, Reach prov e c -> (2 * length (auth_ids c) < gfuel_of univ)%nat)
+      by (intros c Hc; apply gfuel_of_ok; auto).
+    assert (Hnf : r <> ChainOutOfFuel).
+    { unfold r, verify_event_auth_chain.
+      destruct (J_init allowed prov e) as [HT _].
+      apply (chain_fuel_ok allowed allowed_stutter prov prov_honest e (gfuel_of univ) Hg univ Huniv
+               (fuel_of univ) [e] _ [] HT).
+      - intros c [<-|[]]. constructor.
+      - rewrite weight_nil. unfold fuel_of. simpl. lia. }
+    split; auto. apply auth_chain_accepts_iff; auto.
+  Qed.
 End C14.
 
 (* ---- whole-response failures, for ANY provider (stateful, lying, failing) ---- *)
@@ -155,6 +202,27 @@ Theorem backfill_returns_unique_ids :
                      fuel gfuel vk from_ids limit ps = (BfResult evs lastErr, ps') ->
     NoDup (map eid evs) /\ (from_ids = [] -> evs = [] /\ lastErr = false /\ ps' = ps).
 Proof. intros. eapply backfill_unique_ids; eauto. Qed.
+
+(* every event RequestBackfill returns got, from LoadAndVerify on some server's answer, the class
+   "no error" or "signature error only" as the class of its first failing check *)
+Theorem backfill_returns_checked_events :
+  forall PS sig_ok allowed pcall sp_ids sp_state topo servers_at backfill
+         fuel gfuel vk from_ids limit (ps : PS) evs lastErr ps',
+    request_backfill PS sig_ok allowed pcall sp_ids sp_state topo servers_at backfill
+                     fuel gfuel vk from_ids limit ps = (BfResult evs lastErr, ps') ->
+    forall e, In e evs ->
+      exists psa psb c, (c = LOk \/ c = LSig) /\
+        class_spec PS sig_ok allowed pcall sp_ids sp_state fuel gfuel e psa c psb.
+Proof. intros. eapply backfill_events_checked; eauto. Qed.
+
+Theorem backfill_nonpositive_limit_returns_nothing :
+  forall PS sig_ok allowed pcall sp_ids sp_state topo servers_at backfill
+         fuel gfuel vk from_ids limit (ps : PS) evs lastErr ps',
+    (limit <= 0)%Z ->
+    request_backfill PS sig_ok allowed pcall sp_ids sp_state topo servers_at backfill
+                     fuel gfuel vk from_ids limit ps = (BfResult evs lastErr, ps') ->
+    evs = [] /\ lastErr = false.
+Proof. intros. eapply backfill_limit_nonpositive; eauto. Qed.
 
 (* ---- liveness note ----
    a provider that answers the request for a missing auth event x with another state event,
@@ -222,7 +290,12 @@ Print Assumptions duplicate_state_key_fails.
 Print Assumptions non_state_event_fails.
 Print Assumptions auth_rules_at_state_accepts_iff.
 Print Assumptions load_and_verify_shape.
+Print Assumptions check_state_response_total.
+Print Assumptions send_join_never_out_of_fuel.
+Print Assumptions auth_chain_accepts_iff_total.
 Print Assumptions backfill_returns_unique_ids.
+Print Assumptions backfill_returns_checked_events.
+Print Assumptions backfill_nonpositive_limit_returns_nothing.
 Print Assumptions provider_that_keeps_changing_spins.
 Print Assumptions instance_allowed_is_stutter_invariant.
 Print Assumptions ex_allowed_stutter_concrete.
